@@ -200,7 +200,9 @@ theorem readInfo'_ki (cfg : Cfg) (t : TCfg) (r : R) (hr : KI r) : KI (readInfo' 
               have hk2' := ki_of_eq heq (hk2 _ hk')
               split
               · exact hk2'
-              · exact hk2'
+              · split
+                · exact hk2'
+                · exact hk2'
         · exact hk'
 
 theorem readInfo_ki (cfg : Cfg) (t : TCfg) (r : R) (hr : KI r) : KI (readInfo cfg t r).1 := by
